@@ -23,6 +23,15 @@ CLASSES = ['ITC', 'IDTC', 'ICAEKL', 'IB', 'RDH', 'OWSKAR', 'SC', 'DW-TC', 'DW-CA
 OPTIMUM_MAX_SIZE = 12
 SWEEP_KINDS = ['random', 'uniform', 'copy', 'constant', 'zero-rows', 'random', 'optimum']
 
+# classes swept only by the second stream of cases (gen_extra): the rate-distortion optimisers with every distortion,
+# every presentation of the source (rdform) and every alpha (standard / deterministic / generalised objective), the
+# information bottleneck with alpha and an explicit bound, the hypercontractivity optimiser
+RD_CLASSES = ('RDH', 'RDRE', 'RDMC')
+EXTRA_CLASSES = ['RDH', 'RDRE', 'RDMC', 'IB', 'HC']
+# classes whose functional wrapper is called in the 'wrapper' cases
+WRAPPER_CLASSES = ['RDH', 'RDRE', 'RDMC', 'IB', 'IB', 'ITC', 'IDTC', 'ICAEKL', 'WYNER', 'EXACT', 'WYNER-COPY', 'EXACT-COPY', 'HCF',
+                   'DW-CO', 'RDMC']
+
 
 def H(t):
     t = np.asarray(t, dtype=float)
@@ -38,6 +47,40 @@ def Hax(j, keep):
 def cmi(j, X, Y, Z):
     X, Y, Z = set(X), set(Y), set(Z)
     return Hax(j, X | Z) + Hax(j, Y | Z) - Hax(j, X | Y | Z) - Hax(j, Z)
+
+
+def marg(j, keep):
+    """Marginal of the tensor j on the axes `keep` (axes stay in ascending order)."""
+    drop = tuple(i for i in range(j.ndim) if i not in set(keep))
+    return j.sum(axis=drop) if drop else j
+
+
+def maxcorr2_def(P):
+    """The SQUARE of the (Hirschfeld-Gebelein-Renyi) maximal correlation of a two-dimensional table P, from its
+    definition as the second largest eigenvalue of the symmetric operator B = Dx^-1/2 P Dy^-1 P^T Dx^-1/2 (the largest
+    one is 1, belonging to the constant functions); symbols of probability zero are left out.  0 when a variable has a
+    single symbol with positive probability."""
+    P = np.asarray(P, dtype=float)
+    P = P / P.sum()
+    P = P[P.sum(axis=1) > 0][:, P.sum(axis=0) > 0]
+    if min(P.shape) < 2:
+        return 0.0
+    px, py = P.sum(axis=1), P.sum(axis=0)
+    A = P / np.sqrt(px)[:, None]
+    B = (A / py[None, :]) @ A.T
+    ev = np.sort(np.linalg.eigvalsh((B + B.T) / 2))[::-1]
+    return float(max(ev[1], 0.0))
+
+
+def close_maxcorr(got, want2, tol=1e-9):
+    """got = a reported maximal correlation, want2 = the square given by the definition."""
+    if not (np.isfinite(got) and abs(got * got - want2) <= tol):
+        return False
+    return want2 <= 1e-6 or abs(got - math.sqrt(want2)) <= tol
+
+
+def hbin(p):
+    return H([p, 1 - p])
 
 
 class C15(object):
@@ -58,10 +101,35 @@ class C15(object):
             "variables = construct_joint(x); for the Markov-variable optimisers constraint_match_joint(x) = "
             "100 |restriction - input|^2 with the input tabulated from the case, and the objective = the named "
             "quantity evaluated on construct_distribution(x). "
-            "Non-trivial = an auxiliary alphabet of size >= 2 and a non-constant channel") % OPTIMUM_MAX_SIZE
+            "Non-trivial = an auxiliary alphabet of size >= 2 and a non-constant channel. "
+            "A second stream: (a) the same sweeps over the rate-distortion optimisers with every distortion (Hamming, residual "
+            "entropy H[X|T,Z] + H[T|X,Z], 1 - maximal correlation) x every presentation of the source (all variables as X, one "
+            "variable, one variable given Z) x alpha in {1, 0, 1/2} (standard, deterministic H[T|Z] + beta D, generalised "
+            "H[T|Z] - alpha H[T|X,Z] + beta D objective; rate, distortion, entropy, other and the objective each against its "
+            "definition on the joint), the information bottleneck with alpha and an explicit bound, the hypercontractivity "
+            "optimiser (objective -I[U:Y]/I[U:X], +inf where I[U:X] = 0, within [-1, 0]); tuple outcomes of strings with a "
+            "two-character symbol (construct_distribution keeps the tuples); construct_distribution() without a vector = "
+            "construct_distribution(returned optimum); (b) kind `functional`: every tensor functional of BaseOptimizer "
+            "(_entropy, _mutual_information, _conditional_mutual_information with empty / non-empty condition, _coinformation, "
+            "_total_correlation, _dual_total_correlation, _caekl_mutual_information with crvs left out / given, "
+            "_maximum_correlation, _conditional_maximum_correlation, _total_variation) built on a real optimiser and evaluated "
+            "on a constructed joint or a free joint tensor, against its definition computed from the tensor and against the "
+            "model's combf on the same table; (c) kind `wrapper`: Class.functional() of the rate-distortion, bottleneck, "
+            "intrinsic and common-information optimisers and hypercontractivity_coefficient: the optimiser the wrapper builds "
+            "is observed through a recording subclass, the returned values = the named quantities by definition on the joint "
+            "of its optimum (on an optimiser built here from the same arguments), 0 <= rate <= H(X|Z), Fano's inequality for "
+            "(rate, Hamming distortion), bottleneck and intrinsic bounds, the B = H short cut of the common informations = H. "
+            "Shaped cases in every run: the maximum-correlation distortion 1 - max_z rho(X:T|Z=z) with a conditioning variable "
+            "(2x3, 2x2, 3x2) and on a one-symbol source, the four DeWeese objectives -I[X0':X1'|Z] with a conditioning variable. "
+            "Not judged (defect of the unchanged code, reported): construct_distribution on tuples of strings "
+            "whose glued outcomes have equal length") % OPTIMUM_MAX_SIZE
     tolerances = {'joint entries': '1e-12', 'objective = definition': '1e-9', 'bounds on optimised values': '1e-4',
                   'construct_full_joint marginal = construct_joint': '1e-12',
-                  'constraint_match_joint = 100 |restriction - input|^2': '1e-9'}
+                  'constraint_match_joint = 100 |restriction - input|^2': '1e-9',
+                  'tensor functionals = definition / model': '1e-9',
+                  'maximal correlation': '|rho^2 - second eigenvalue of the definition| <= 1e-9, and |rho - sqrt| <= 1e-9 where rho^2 > 1e-6',
+                  'functional forms = definitions on the joint of their optimum': '1e-9',
+                  'rate in [0, H(X|Z)], Fano': '1e-6'}
     exhaustive = {}
     case_timeout = 40
     modelled = ("the Markov-variable optimisers (Wyner, exact common information) are compared with the same model construction "
@@ -168,6 +236,134 @@ class C15(object):
                 c['reuse'] = 'buffer'
                 c['sweep'] = [r2.choice(['random', 'zero-rows'])] + c['sweep'][:2]
             yield c
+        # a second stream (drawn after the first one and from a generator of its own, so that the first stream is what
+        # it was without it)
+        for c in self.gen_extra(random.Random(rng.getrandbits(32) ^ 0x0C15E), tier):
+            yield c
+
+    def base_case(self, rng, amax=None, n=3, klass=None):
+        c = gen.rand_dist_case(rng, nmin=n, nmax=n, amax=amax or (2 if rng.random() < 0.7 else 3), bases=['linear'],
+                               allow_space=False, allow_names=False, max_support=8,
+                               klasses=(klass,) if klass else ('str', 'tuple'))
+        gen.avoid_subnull(c)
+        pv = [Fraction(p) for p in c['pmf']]
+        if any(0 < p < Fraction(1, 100) for p in pv):
+            pv2, _ = gen.rand_prob_vector(rng, len(pv), 'small')
+            c['pmf'] = [str(p) for p in pv2]
+        c['seed'] = rng.randrange(2 ** 31)
+        c['beta'] = rng.choice([0.0, 0.5, 1.0, 3.0])
+        c['bounds'] = False
+        c['assign'] = rng.choice([[0, 1, 2], [0, 1, 2], [1, 0, 2], [2, 0, 1], [0, 2, 1], [2, 1, 0], [1, 2, 0]])
+        return c
+
+    def gen_extra(self, rng, tier):
+        """(a) sweeps over the optimisers and options the first stream never builds: every rate-distortion optimiser
+        (Hamming / residual entropy / maximum correlation) on every presentation of the source (all variables as X; one
+        variable as X; one variable as X given a conditioning variable), the standard (alpha = 1), deterministic
+        (alpha = 0) and generalised (0 < alpha < 1) objectives of rate distortion and of the information bottleneck,
+        an explicit bound on the auxiliary alphabet, the hypercontractivity optimiser;
+        (b) 'functional': the tensor information functionals of BaseOptimizer (the closures every objective is built
+        from) called directly with every legal argument shape, on a constructed joint or on a free joint tensor;
+        (c) 'wrapper': the functional forms (`Class.functional()`, hypercontractivity_coefficient)."""
+        n_sweep, n_fun, n_wrap = (40, 40, len(WRAPPER_CLASSES)) if tier == 'quick' else (1500, 1500, 120)
+        combos = []
+        for k in EXTRA_CLASSES:
+            for alpha in ([1.0, 0.0, 0.5] if k != 'HC' else [1.0]):
+                for form in (['joint2', 'single', 'cond'] if k in RD_CLASSES else ['-']):
+                    combos.append((k, alpha, form))
+        rng.shuffle(combos)
+        for i in range(n_sweep):
+            c = self.base_case(rng)
+            c['cls'], c['alpha'], c['rdform'] = combos[i % len(combos)]
+            c['xkind'] = rng.choice(['random', 'random', 'uniform', 'copy', 'constant', 'zero-rows'])
+            c['bound'] = rng.choice([None, None, 1, 2, 3]) if c['cls'] in ('IB', 'HC') else None
+            c['cond'] = rng.random() < 0.5        # information bottleneck: with / without a conditioning variable
+            c['sweep'] = [rng.choice(SWEEP_KINDS) for _ in range(rng.choice([0, 1, 2]))]
+            c['reuse'] = rng.choice(['buffer', 'fresh'])
+            yield c
+        # tuple outcomes whose symbols are strings, one of them two characters long ('dd'): construct_distribution cannot
+        # glue such outcomes into strings and has to hand them back as tuples
+        for i in range(14 if tier == 'quick' else 300):
+            for _ in range(40):
+                c = self.base_case(rng, klass='mixed')
+                if len(self.multichar_counts(c)) > 1 or rng.random() < 0.05:
+                    break
+            c['cls'] = ['ITC', 'IDTC', 'ICAEKL', 'IB', 'OWSKAR', 'WYNER', 'EXACT'][i % 7]
+            c['alpha'], c['bound'], c['rdform'] = 1.0, None, '-'
+            c['xkind'] = rng.choice(['random', 'random', 'copy', 'zero-rows'])
+            c['sweep'] = [rng.choice(['random', 'uniform', 'zero-rows'])] if rng.random() < 0.5 else []
+            c['reuse'] = rng.choice(['buffer', 'fresh'])
+            yield c
+        # input classes that used to fail and were repaired, in every run: the maximum-correlation distortion with a
+        # conditioning variable (|X| x |Z| = 2 x 3, 2 x 2, 3 x 2), on a one-symbol source (with and without Z); the DeWeese
+        # co-information (and its three sisters) with a conditioning variable of two or three symbols
+        shaped = [('RDMC', 'cond', (2, 1, 3)), ('RDMC', 'cond', (2, 2, 2)), ('RDMC', 'cond', (3, 2, 2)),
+                  ('RDMC', 'cond', (1, 2, 2)), ('RDMC', 'single', (1, 2, 2)), ('RDMC', 'joint2', (1, 1, 2)),
+                  ('DW-CO', '-', (2, 2, 2)), ('DW-CO', '-', (2, 3, 3)), ('DW-TC', '-', (2, 2, 2)),
+                  ('DW-DTC', '-', (2, 2, 3)), ('DW-CAEKL', '-', (3, 2, 2))]
+        for i in range(len(shaped) if tier == 'quick' else 30 * len(shaped)):
+            k, form, sizes = shaped[i % len(shaped)]
+            c = self.base_case(rng)
+            c['assign'] = [0, 1, 2]
+            c['alphabets'] = [sorted(rng.sample(range(6), n_)) for n_ in sizes]
+            full = [[x_, y_, z_] for x_ in c['alphabets'][0] for y_ in c['alphabets'][1] for z_ in c['alphabets'][2]]
+            w = [rng.randint(1, 6) for _ in full]         # full support: the shape is what it is meant to be
+            c['outs'], c['pmf'] = full, [str(Fraction(w_, sum(w))) for w_ in w]
+            c['cls'], c['rdform'] = k, form
+            c['alpha'] = rng.choice([1.0, 1.0, 0.0, 0.5]) if k == 'RDMC' else 1.0
+            c['bound'] = None
+            c['xkind'] = rng.choice(['random', 'random', 'copy', 'zero-rows'])
+            c['sweep'] = [rng.choice(['random', 'uniform', 'zero-rows', 'optimum'])]
+            c['reuse'] = rng.choice(['buffer', 'fresh'])
+            yield c
+        for i in range(n_fun):
+            c = self.base_case(rng)
+            c['kind'] = 'functional'
+            c['cls'] = ['IB', 'ITC', 'OWSKAR', 'RDH', 'HC', 'DW-TC'][i % 6]
+            c['alpha'], c['bound'], c['cond'] = 1.0, None, True
+            c['rdform'] = 'cond'
+            c['xkind'] = rng.choice(['random', 'random', 'zero-rows', 'free', 'free-zeros'])
+            yield c
+        for i in range(n_wrap):
+            search = WRAPPER_CLASSES[i % len(WRAPPER_CLASSES)] in ('WYNER', 'EXACT')
+            for _ in range(60 if search else 20):
+                # (mostly) at least three outcomes and two symbols for the first two roles: a search worth its time; for
+                # the common informations always three different (X0, X1) pairs with positive probability, so that
+                # B < H and the functional form has to search
+                c = self.base_case(rng, amax=2)
+                a_, b_ = c['assign'][:2]
+                pairs = set((o[a_], o[b_]) for o, p_ in zip(c['outs'], c['pmf']) if Fraction(p_) > 0)
+                if len(c['outs']) >= 3 and all(len(set(o[v] for o in c['outs'])) >= 2 for v in (a_, b_)) and (
+                        len(pairs) >= 3 or not search):
+                    break
+                if not search and rng.random() < 0.15:
+                    break
+            c['kind'] = 'wrapper'
+            c['cls'] = WRAPPER_CLASSES[i % len(WRAPPER_CLASSES)]
+            c['alpha'] = rng.choice([1.0, 1.0, 0.0, 0.5]) if c['cls'] == 'IB' else 1.0
+            c['bound'] = rng.choice([None, 2]) if c['cls'] in ('IB', 'ITC', 'IDTC', 'ICAEKL') else None
+            c['cond'] = rng.random() < 0.5
+            c['rdform'] = rng.choice(['single', 'cond'])
+            # the default search of the Wyner common information with a conditioning variable takes 20-60 s: thorough tier only
+            c['mcond'] = None if (tier == 'thorough' and rng.random() < 0.3) else False
+            c['beta'] = rng.choice([0.0, 0.5, 1.0, 3.0])
+            c['xkind'] = 'none'
+            if c['cls'].endswith('-COPY'):
+                # X_b a copy of X_a: dual total correlation = joint entropy, the short cut of the common informations
+                a, b, _ = c['assign']
+                seen, outs, pmf = {}, [], []
+                for o, p in zip(c['outs'], c['pmf']):
+                    o = list(o)
+                    o[b] = o[a]
+                    if tuple(o) in seen:
+                        pmf[seen[tuple(o)]] = str(Fraction(pmf[seen[tuple(o)]]) + Fraction(p))
+                    else:
+                        seen[tuple(o)] = len(outs)
+                        outs.append(o)
+                        pmf.append(p)
+                c['outs'], c['pmf'] = outs, pmf
+                c['alphabets'][b] = list(c['alphabets'][a])
+            yield c
 
     def shrink(self, case):
         return []
@@ -195,9 +391,22 @@ class C15(object):
         if k == 'MIN-ITC':
             return mimi.MinimalIntrinsicTotalCorrelation(d, [[a], [b]], [c])
         if k == 'IB':
-            return InformationBottleneck(d, beta=case['beta'], rvs=[[a], [b]], crvs=[c] if case['seed'] % 2 else None)
-        if k == 'RDH':
-            return RateDistortionHamming(d.marginal([0, 1]), beta=case['beta'])
+            return InformationBottleneck(d, beta=case['beta'], alpha=case.get('alpha', 1.0), rvs=[[a], [b]],
+                                         crvs=[c] if self.ib_crvs(case) else None, bound=case.get('bound'))
+        if k in RD_CLASSES:
+            from dit.rate_distortion import rate_distortion as rdmod
+            rdcls = {'RDH': rdmod.RateDistortionHamming, 'RDRE': rdmod.RateDistortionResidualEntropy,
+                     'RDMC': rdmod.RateDistortionMaximumCorrelation}[k]
+            form = case.get('rdform', 'joint2')
+            kw = {} if 'alpha' not in case else {'alpha': case['alpha']}
+            if form == 'joint2':        # all variables of a two-variable distribution together as X
+                return rdcls(d.marginal([0, 1]), beta=case['beta'], **kw)
+            if form == 'single':        # one variable as X
+                return rdcls(d, beta=case['beta'], rv=[a], **kw)
+            return rdcls(d, beta=case['beta'], rv=[a], crvs=[c], **kw)      # one variable as X, given Z
+        if k == 'HC':
+            from dit.divergences.hypercontractivity_coefficient import HypercontractivityCoefficient
+            return HypercontractivityCoefficient(d, [a], [b], bound=case.get('bound'))
         if k == 'OWSKAR':
             return OneWaySKAR(d, [a], [b], [c])
         if k == 'SC':
@@ -207,7 +416,7 @@ class C15(object):
                     'DW-CO': 'DeWeeseCoInformation', 'DW-DTC': 'DeWeeseDualTotalCorrelation'}[k]
             return getattr(deweese, name)(d, [[a], [b]], [c])
         if k == 'WYNER':
-            return WynerCommonInformation(d, [[a], [b]], [c] if case['seed'] % 2 else None)
+            return WynerCommonInformation(d, [[a], [b]], self.markov_crvs(case) or None)
         if k == 'EXACT':
             return ExactCommonInformation(d, [[a], [b]])
         raise ValueError(k)
@@ -247,9 +456,19 @@ class C15(object):
         r = core.Result()
         r.site = 'C15.' + case['cls']
         r.features = ['cls=%s' % case['cls'], 'x=%s' % case['xkind']]
+        if case.get('kind') in ('functional', 'wrapper'):
+            r.site = 'C15.%s.%s' % (case['kind'], case['cls'])
+            r.features.append('kind=%s' % case['kind'])
+        for f_ in ('alpha', 'rdform', 'bound'):
+            if case.get(f_) not in (None, '-') and case.get('kind') != 'functional':
+                r.features.append('%s=%s' % (f_, case[f_]))
         try:
             if case.get('kind') == 'trivial':
                 self.run_trivial(case, drv, r)
+            elif case.get('kind') == 'functional':
+                self.run_functional(case, drv, r)
+            elif case.get('kind') == 'wrapper':
+                self.run_wrapper(case, drv, r)
             else:
                 self.run_inner(case, drv, r)
         except core.DriverError:
@@ -295,6 +514,8 @@ class C15(object):
                 arg = (lambda x=x: x.copy())
             det = r.detail if pi == 0 else {}
             self.check_point(case, d, opt, x, arg, avs, drv, r, det)
+            if kind == 'optimum' and not r.bad() and hasattr(opt, '_optima') and 'optimum-evaluated' in r.features:
+                self.check_default_vector(case, opt, r)
             if pi > 0:
                 r.detail.setdefault('sweep', []).append(dict(det, kind=kind))
                 where = 'point #%d (%s) of a sweep on one optimiser object, vectors passed %s: ' % (
@@ -402,12 +623,23 @@ class C15(object):
         self.check_objective(case, opt, x, joint, r, arg, det)
         if r.bad():
             return
+        if self.glued_multichar(case, opt, joint):
+            # NOT JUDGED (defect of the unchanged code, reported): construct_distribution(x) of a distribution whose
+            # outcomes are tuples of strings, one symbol longer than one character ('dd'), when that symbol occurs equally
+            # often among the variables of interest in every outcome.  construct_distribution glues the outcomes into strings
+            # ("if all outcomes are strings, make new variable strings too"); the glued strings have equal length, are
+            # accepted, and ('dd', 'b', ...) comes back as 'ddb...': more variables than the input has, none of them at
+            # its position.  (With unequal counts the glued strings are rejected and the tuples are kept: judged.)
+            r.features.append('glued-multichar-not-judged')
+            return
         if markov:
             self.check_markov_distribution(case, opt, full, arg, r, det)
             if r.bad():
                 return
         # ---- construct_distribution
         if not markov and case['cls'] in ('ITC', 'IDTC', 'ICAEKL', 'IB', 'OWSKAR'):
+            if case['klass'] == 'mixed':
+                r.features.append('tuples-of-strings-' + ('kept' if self.multichar_counts(case) else 'glued'))
             cd = opt.construct_distribution(arg(), cutoff=1e-9)
             m = cd.marginal(list(range(3)))
             src = {tuple(o): float(Fraction(p)) for o, p in zip(case['outs'], case['pmf']) if Fraction(p) > 0}
@@ -442,12 +674,57 @@ class C15(object):
                 r.oracle_fail = 'construct_distribution(x): the marginal on the original variables is not the input (up to relabelling the conditioning variable)'
                 return
 
+    def multichar_counts(self, case):
+        """How often a symbol longer than one character occurs among the variables of interest, per outcome of the
+        support (the empty set when no such symbol occurs at all)."""
+        if case.get('klass') != 'mixed':
+            return set()
+        u = gen.UNIVERSE['mixed']
+        a, b = case.get('assign', [0, 1, 2])[:2]
+        cnt = set(sum(1 for v in (a, b) if len(u[o[v]]) > 1) for o, p in zip(case['outs'], case['pmf']) if Fraction(p) > 0)
+        return set() if cnt == {0} else cnt
+
+    def glued_multichar(self, case, opt=None, joint=None):
+        if case.get('klass') != 'mixed':
+            return False
+        if case['cls'] in ('WYNER', 'EXACT'):
+            # the outcomes of construct_distribution(x) are the cells of the joint the vector produces (X1 is generated from
+            # W: not only the outcomes of the input)
+            inv = [u.inverse for u in opt._unqs[:2]]
+            m = joint.sum(axis=tuple(range(2, joint.ndim)))
+            cnt = set(sum(1 for s_ in inv[0][i] if len(s_) > 1) + sum(1 for s_ in inv[1][j] if len(s_) > 1)
+                      for (i, j), v in np.ndenumerate(m) if v > 0)
+            return cnt != {0} and len(cnt) == 1
+        return len(self.multichar_counts(case)) == 1
+
+    def check_default_vector(self, case, opt, r):
+        """construct_distribution() without a vector is construct_distribution(the optimum the search returned)."""
+        xo = np.array(opt._optima, dtype=float)
+        try:
+            want = opt.construct_distribution(xo.copy())
+        except Exception:       # noqa  (what construct_distribution does with an explicit vector is judged elsewhere)
+            return
+        got = opt.construct_distribution()
+        r.features.append('default-vector')
+        tw = {tuple(o) if not isinstance(o, str) else o: float(p) for o, p in zip(want.outcomes, want.pmf)}
+        tg = {tuple(o) if not isinstance(o, str) else o: float(p) for o, p in zip(got.outcomes, got.pmf)}
+        if set(k_ for k_, v in tw.items() if v > 0) != set(k_ for k_, v in tg.items() if v > 0) or any(
+                abs(tg.get(k_, 0.0) - v) > 1e-12 for k_, v in tw.items()):
+            r.oracle_fail = ('construct_distribution() without a vector is not construct_distribution(x) at the optimum the '
+                             'search on this object returned')
+
     def built_on(self, case):
         """Positions of the variables of the distribution the optimiser was built on."""
-        return [0, 1] if case['cls'] == 'RDH' else [0, 1, 2]
+        return [0, 1] if (case['cls'] in RD_CLASSES and case.get('rdform', 'joint2') == 'joint2') else [0, 1, 2]
+
+    def ib_crvs(self, case):
+        """Whether the information bottleneck of the case has a conditioning variable."""
+        return bool(case['cond']) if 'cond' in case else bool(case['seed'] % 2)
 
     def markov_crvs(self, case):
         a, b, c = case.get('assign', [0, 1, 2])
+        if case.get('mcond') is False:
+            return []
         return [c] if (case['cls'] == 'WYNER' and case['seed'] % 2) else []
 
     def markov_target(self, case, d, opt, shape):
@@ -501,6 +778,7 @@ class C15(object):
         k = case['cls']
         arg = arg or (lambda: x.copy())
         det = r.detail if det is None else det
+        defs = det.setdefault('defs', {})      # the named quantities by definition on the joint (for the wrappers)
         obj = float(opt.objective(arg()))
         X, Y, Z, W = [0], [1], [2], [3]
 
@@ -513,48 +791,455 @@ class C15(object):
             aux = list(range(3, joint.ndim))
             want = Hax(joint, set(X + aux)) + Hax(joint, set(Y + aux)) - Hax(joint, set(X + Y + aux)) - Hax(joint, set(aux))
             if k == 'ITC':
+                defs['objective'] = want
                 expect('objective = T[X:Y|W]', obj, want)
         elif k == 'IDTC':
             want = cmi(joint, X, Y, W)       # two groups: B = I(X:Y|W)
+            defs['objective'] = want
             expect('objective = B[X:Y|W]', obj, want)
         elif k == 'ICAEKL':
+            defs['objective'] = cmi(joint, X, Y, W)
             expect('objective = J[X:Y|W]', obj, cmi(joint, X, Y, W))
         elif k == 'IB':
             comp = float(opt.complexity(joint))
             rel = float(opt.relevance(joint))
+            alpha, beta = case.get('alpha', 1.0), case['beta']
+            defs.update(complexity=cmi(joint, X, W, Z), relevance=cmi(joint, Y, W, Z))
             if expect('complexity = I[X:T|Z]', comp, cmi(joint, X, W, Z)) and expect('relevance = I[Y:T|Z]', rel, cmi(joint, Y, W, Z)):
                 # complexity <= H(X|Z), relevance <= I(X:Y|Z) for every feasible point
                 dist_ = float(opt.distortion(joint))
-                if not expect('distortion = I[X:Y|Z] - I[Y:T|Z]', dist_, cmi(joint, X, Y, Z) - cmi(joint, Y, W, Z)):
+                ddef = cmi(joint, X, Y, Z) - cmi(joint, Y, W, Z)
+                if not expect('distortion = I[X:Y|Z] - I[Y:T|Z]', dist_, ddef):
                     return
-                if not expect('objective = I[X:T|Z] + beta (I[X:Y|Z] - I[Y:T|Z])', obj,
-                              cmi(joint, X, W, Z) + case['beta'] * (cmi(joint, X, Y, Z) - cmi(joint, Y, W, Z))):
+                # the other named quantities the optimiser reports: H[T|Z], H[T|X,Z], I[X:Y|T,Z]
+                hdef = Hax(joint, {2, 3}) - Hax(joint, {2})
+                odef = Hax(joint, {0, 2, 3}) - Hax(joint, {0, 2})
+                if not (expect('entropy = H[T|Z]', float(opt.entropy(joint)), hdef)
+                        and expect('other = H[T|X,Z]', float(opt.other(joint)), odef)
+                        and expect('error = I[X:Y|T,Z]', float(opt.error(joint)), cmi(joint, X, Y, Z + W))):
+                    return
+                if alpha == 1.0:
+                    name, want = 'objective = I[X:T|Z] + beta (I[X:Y|Z] - I[Y:T|Z])', cmi(joint, X, W, Z) + beta * ddef
+                elif alpha == 0.0:
+                    name, want = 'deterministic objective = H[T|Z] + beta (I[X:Y|Z] - I[Y:T|Z])', hdef + beta * ddef
+                else:
+                    name, want = ('generalised objective = H[T|Z] - alpha H[T|X,Z] + beta (I[X:Y|Z] - I[Y:T|Z])',
+                                  hdef - alpha * odef + beta * ddef)
+                defs['objective'] = want
+                if not expect(name, obj, want):
                     return
                 if comp > Hax(joint, {0, 2}) - Hax(joint, {2}) + 1e-9:
                     r.oracle_fail = 'complexity %r exceeds H(X|Z)' % comp
                 elif rel > cmi(joint, X, Y, Z) + 1e-9:
                     r.oracle_fail = 'relevance %r exceeds I(X:Y|Z) = %r' % (rel, cmi(joint, X, Y, Z))
-        elif k == 'RDH':
+        elif k in RD_CLASSES:
+            # joint axes: X, Z, T
             rate = float(opt.rate(joint))
             dist = float(opt.distortion(joint))
+            alpha, beta = case.get('alpha', 1.0), case['beta']
             n = joint.shape[0]
             pxt = joint.sum(axis=1)
             ham = 1 - np.eye(n, pxt.shape[1])
-            if expect('rate = I[X:T]', rate, cmi(joint, [0], [2], [1])):
-                expect('distortion = E[hamming]', dist, float((pxt * ham).sum()))
+            rdef = cmi(joint, [0], [2], [1])
+            defs['rate'] = rdef
+            if not expect('rate = I[X:T|Z]', rate, rdef):
+                return
+            if k == 'RDH':
+                ddef = float((pxt * ham).sum())
+                defs['distortion'] = ddef
+                if not expect('distortion = E[hamming]', dist, ddef):
+                    return
+            elif k == 'RDRE':
+                # residual entropy H[X,T|Z] - I[X:T|Z] = H[X|T,Z] + H[T|X,Z]
+                ddef = (Hax(joint, {0, 1, 2}) - Hax(joint, {1, 2})) + (Hax(joint, {0, 1, 2}) - Hax(joint, {0, 1}))
+                defs['distortion'] = ddef
+                if not expect('distortion = H[X|T,Z] + H[T|X,Z]', dist, ddef):
+                    return
+            else:
+                # 1 - max_z rho(X:T|Z=z), the maximal correlation of X and T within each class of the conditioning
+                # variable (one class when there is none; rho = 0 for a source with a single symbol).  A conditioning
+                # variable of more than one symbol and a one-symbol source used to fail (axis order (x, y, z) assumed
+                # on the (X, Z, T) joint; svdvals(Q)[1] on a 1 x 1 table) and were repaired.
+                want2 = max([maxcorr2_def(joint[:, z_, :]) for z_ in range(joint.shape[1]) if joint[:, z_, :].sum() > 0] or [0.0])
+                r.features.append('rdmc=%s' % ('one-symbol' if joint.shape[0] < 2 else 'conditional-%dx%d' % joint.shape[:2]
+                                                if joint.shape[1] > 1 else 'plain'))
+                ddef = 1 - math.sqrt(want2)
+                if not close_maxcorr(1 - dist, want2):
+                    r.oracle_fail = ('distortion(x) = %r but 1 - max_z rho(X:T|Z=z) by its definition on '
+                                     'construct_joint(x) = %r' % (dist, ddef))
+                    return
+                if not (-1e-9 <= dist <= 1 + 1e-9):
+                    r.oracle_fail = 'maximum-correlation distortion %r outside [0, 1]' % dist
+                    return
+                if want2 <= 1e-6:
+                    # a square root next to 0: the reported value (just verified through its square) stands for it below
+                    ddef = dist
+                defs['distortion'] = ddef
+            hdef = Hax(joint, {1, 2}) - Hax(joint, {1})
+            odef = Hax(joint, {0, 1, 2}) - Hax(joint, {0, 1})
+            if not (expect('entropy = H[T|Z]', float(opt.entropy(joint)), hdef)
+                    and expect('other = H[T|X,Z]', float(opt.other(joint)), odef)):
+                return
+            if alpha == 1.0:
+                name, want = 'objective = I[X:T|Z] + beta distortion', rdef + beta * ddef
+            elif alpha == 0.0:
+                name, want = 'deterministic objective = H[T|Z] + beta distortion', hdef + beta * ddef
+            else:
+                name, want = 'generalised objective = H[T|Z] - alpha H[T|X,Z] + beta distortion', hdef - alpha * odef + beta * ddef
+            defs['objective'] = want
+            if not expect(name, obj, want):
+                return
+            # any feasible point: 0 <= rate <= H(X|Z)
+            if rate < -1e-9 or rate > Hax(joint, {0, 1}) - Hax(joint, {1}) + 1e-9:
+                r.oracle_fail = 'rate %r outside [0, H(X|Z) = %r]' % (rate, Hax(joint, {0, 1}) - Hax(joint, {1}))
+        elif k.startswith('DW-'):
+            # joint axes: X0, X1, Z, X0', X1' (each X' a function of its X only): the objective is minus the measure of
+            # (X0', X1') given Z, for two variables I[X0':X1'|Z] whichever the measure.  (The co-information with a
+            # conditioning variable used to leave Z out of its sub-marginals: repaired.)
+            want = -cmi(joint, [3], [4], [2])
+            defs['objective'] = want
+            expect('objective = -I[X0\':X1\'|Z]', obj, want)
+        elif k == 'HC':
+            # joint axes: X, Y, (empty conditioning variable), U; the objective is -I[U:Y] / I[U:X], +inf where I[U:X] = 0
+            a_, b_ = cmi(joint, [3], [1], []), cmi(joint, [3], [0], [])
+            defs.update(IUY=a_, IUX=b_)
+            if b_ < 5e-9:
+                if obj != math.inf:
+                    r.oracle_fail = 'objective(x) = %r although I[U:X] = %r (the quotient I[U:Y]/I[U:X] does not exist: +inf expected)' % (obj, b_)
+            elif b_ > 2e-8:
+                # (between the two thresholds the branch of the real code hangs on the last digits: not judged)
+                if not np.isfinite(obj) or abs(obj * b_ + a_) > 1e-9 or (b_ >= 1e-3 and abs(obj + a_ / b_) > 1e-9):
+                    r.oracle_fail = 'objective(x) = %r but -I[U:Y]/I[U:X] evaluated by definition on construct_joint(x) is -%r/%r = %r' % (obj, a_, b_, -a_ / b_)
+                elif b_ >= 1e-3 and not (-1 - 1e-9 <= obj <= 1e-9):
+                    # U - X - Y: data processing, for every feasible point
+                    r.oracle_fail = 'objective(x) = %r outside [-1, 0] although U - X - Y is a Markov chain' % obj
         elif k == 'WYNER':
             # joint axes: X0, X1, Z, W
             nz = joint.ndim
             want = cmi(joint, [0, 1], [3], [2])
+            defs['objective'] = want
             if expect('objective = I[X0,X1 : W | Z]', obj, want):
                 if abs(cmi(joint, [0], [1], [2, 3])) > 1e-9:
                     r.oracle_fail = 'X0 and X1 are not conditionally independent given (W, Z): I = %r' % cmi(joint, [0], [1], [2, 3])
         elif k == 'EXACT':
             want = Hax(joint, {2, 3}) - Hax(joint, {2})
+            defs['objective'] = want
             if expect('objective = H[W | Z]', obj, want):
                 if abs(cmi(joint, [0], [1], [2, 3])) > 1e-9:
                     r.oracle_fail = 'X0 and X1 are not conditionally independent given (W, Z)'
         det['objective'] = obj
+
+    # ------------------------------------------------------------------
+    def run_functional(self, case, drv, r):
+        """The tensor information functionals of BaseOptimizer (the closures every objective, rate, distortion,
+        complexity and relevance is assembled from), built on a real optimiser object and evaluated on a joint tensor
+        with the optimiser's axes: each against its definition computed here from the tensor (oracle) and against the
+        model's entropy combinations evaluated on the same table (combf)."""
+        dit = import_dit()
+        d = gen.build(case)
+        opt = self.make(case, d)
+        rs = np.random.RandomState(case['seed'])
+        rg = random.Random(case['seed'] ^ 0xF0C)
+        x = np.asarray(self.vector(case, opt, rs, 'random' if case['xkind'].startswith('free') else case['xkind']), dtype=float)
+        T = np.asarray(opt.construct_joint(x.copy()), dtype=float)
+        if case['xkind'].startswith('free'):
+            # any joint pmf over the optimiser's axes (the functionals are defined on tensors, not on parameters)
+            T = rs.rand(*T.shape)
+            if case['xkind'] == 'free-zeros':
+                T[rs.rand(*T.shape) < 0.3] = 0.0
+            if T.sum() == 0:
+                T.flat[0] = 1.0
+            T = T / T.sum()
+        nax = T.ndim
+        if nax != len(opt._all_vars):
+            r.mismatch = 'construct_joint(x) has %d axes, the optimiser declares %d variables' % (nax, len(opt._all_vars))
+            return
+        r.nontrivial = int((T > 0).sum()) >= 3
+        r.detail = {'shape': list(T.shape)}
+        ftab = [[list(map(int, idx)), f2bits(float(v))] for idx, v in np.ndenumerate(T) if v > 0]
+        M = lambda name, g, z: bits2f(drv.call('combf', [name, 0, [sorted(x_) for x_ in g], sorted(z), ftab]))
+        axes = list(range(nax))
+
+        def split(sizes):
+            """Disjoint sets of axes with the given sizes (None when there are not enough axes)."""
+            if sum(sizes) > nax:
+                return None
+            a = axes[:]
+            rg.shuffle(a)
+            out, i = [], 0
+            for k_ in sizes:
+                out.append(set(a[i:i + k_]))
+                i += k_
+            return out
+
+        def judge(name, got, want, model=None, tol=1e-9):
+            got = float(got)
+            r.detail[name] = [got, want, model]
+            r.features.append('f=' + name.split('(')[0])
+            if not (np.isfinite(got) and abs(got - want) <= tol * max(1.0, abs(want))):
+                r.oracle_fail = 'BaseOptimizer.%s on a joint of shape %s = %r, its definition evaluated on that joint gives %r' % (
+                    name, list(T.shape), got, want)
+                return False
+            if model is not None and not (abs(got - model) <= tol * max(1.0, abs(model))):
+                r.mismatch = 'BaseOptimizer.%s = %r, the model gives %r' % (name, got, model)
+                return False
+            return True
+
+        def cond(S, C):
+            return Hax(T, set(S) | set(C)) - (Hax(T, set(C)) if C else 0.0)
+
+        # ---- entropy H[S|C]: crvs left out (the default), empty, non-empty
+        for C in (None, set(), 'some'):
+            k_ = rg.randint(1, max(1, nax - 1))
+            S, Cs = split([k_, 0 if C != 'some' else rg.randint(1 if nax - k_ else 0, max(0, nax - k_))])
+            f = opt._entropy(S) if C is None else opt._entropy(S, Cs)
+            if not judge('_entropy(%s, %s)' % (sorted(S), 'default' if C is None else sorted(Cs)), f(T), cond(S, Cs),
+                         M('entropy', [S], Cs)):
+                return
+        # ---- mutual information I[X:Y], and conditional mutual information with an empty / non-empty condition
+        kx = rg.randint(1, nax - 1)
+        X, Y = split([kx, rg.randint(1, nax - kx)])
+        if not judge('_mutual_information(%s, %s)' % (sorted(X), sorted(Y)), opt._mutual_information(X, Y)(T), cmi(T, X, Y, []),
+                     M('cmi', [X, Y], [])):
+            return
+        if not judge('_conditional_mutual_information(%s, %s, {})' % (sorted(X), sorted(Y)),
+                     opt._conditional_mutual_information(X, Y, set())(T), cmi(T, X, Y, []), M('cmi', [X, Y], [])):
+            return
+        if nax >= 3:
+            X, Y, Z = split([1, 1, 1]) if nax == 3 else split([rg.randint(1, nax - 2), 1, 1])
+            if not judge('_conditional_mutual_information(%s, %s, %s)' % (sorted(X), sorted(Y), sorted(Z)),
+                         opt._conditional_mutual_information(X, Y, Z)(T), cmi(T, X, Y, Z), M('cmi', [X, Y], Z)):
+                return
+        # ---- co-information, total correlation, dual total correlation, CAEKL mutual information of single variables
+        for name, mname, kmin in (('_coinformation', 'coinformation', 1), ('_total_correlation', 'total_correlation', 2),
+                                  ('_dual_total_correlation', 'dual_total_correlation', 2),
+                                  ('_caekl_mutual_information', 'caekl_mutual_information', 2)):
+            for C in (None, 'some'):
+                # (_coinformation with a non-empty conditioning set used to leave crvs out of its sub-marginals: repaired)
+                k_ = rg.randint(kmin, min(3, nax - (1 if C == 'some' else 0)))
+                S, Cs = split([k_, 0 if C != 'some' else rg.randint(1, max(1, min(2, nax - k_)))])
+                groups = [[v] for v in sorted(S)]
+                f = getattr(opt, name)(S) if C is None else getattr(opt, name)(S, Cs)
+                want = self.comb_def(mname, T, sorted(S), Cs)
+                if not judge('%s(%s, %s)' % (name, sorted(S), 'default' if C is None else sorted(Cs)), f(T), want,
+                             M(mname, groups, Cs)):
+                    return
+        # ---- maximal correlation of two variables (axes in ascending order, as every optimiser passes them; at
+        # least two symbols each), and its conditional form max_z rho(X:Y|Z=z) on ascending axes (x, y, z)
+        big = [a for a in axes if T.shape[a] >= 2]
+        if len(big) >= 2:
+            prs = [(u, v) for u in big for v in big if u < v]
+            inner = [pr for pr in prs if pr[1] < nax - 1]       # a later axis is left for the conditional form
+            xa, ya = rg.choice(inner if inner and rg.random() < 0.8 else prs)
+            got = float(opt._maximum_correlation({xa}, {ya})(T))
+            want2 = maxcorr2_def(marg(T, [xa, ya]))
+            r.detail['_maximum_correlation'] = [xa, ya, got, math.sqrt(want2)]
+            r.features.append('f=_maximum_correlation')
+            if not close_maxcorr(got, want2):
+                r.oracle_fail = ('BaseOptimizer._maximum_correlation({%d}, {%d}) on a joint of shape %s = %r, the maximal '
+                                 'correlation by its definition is %r' % (xa, ya, list(T.shape), got, math.sqrt(want2)))
+                return
+            later = [a for a in axes if a > ya]
+            if later:
+                za = rg.choice(later)
+                got = float(opt._conditional_maximum_correlation({xa}, {ya}, {za})(T))
+                P = marg(T, [xa, ya, za])
+                want2 = max([maxcorr2_def(P[:, :, i]) for i in range(P.shape[2]) if P[:, :, i].sum() > 0] or [0.0])
+                r.detail['_conditional_maximum_correlation'] = [xa, ya, za, got, math.sqrt(want2)]
+                r.features.append('f=_conditional_maximum_correlation')
+                if not close_maxcorr(got, want2):
+                    r.oracle_fail = ('BaseOptimizer._conditional_maximum_correlation({%d}, {%d}, {%d}) on a joint of shape %s = %r, '
+                                     'max_z rho(X:Y|Z=z) by its definition is %r' % (xa, ya, za, list(T.shape), got, math.sqrt(want2)))
+                    return
+        # ---- total variation between the marginals of two variables over the same index alphabet
+        pairs = [(a, b) for a in axes for b in axes if a != b and T.shape[a] == T.shape[b]]
+        if pairs:
+            xa, ya = rg.choice(pairs)
+            px, py = marg(T, [xa]), marg(T, [ya])
+            want = float(sum(abs(Fraction(float(u)) - Fraction(float(v))) for u, v in zip(px, py)) / 2)
+            if not judge('_total_variation({%d}, {%d})' % (xa, ya), opt._total_variation({xa}, {ya})(T), want):
+                return
+        if case['cls'] == 'RDH':
+            # every clause for the maximum-correlation optimiser with a conditioning variable, at one more vector
+            c2 = dict(case, cls='RDMC', kind=None, sweep=[], reuse='fresh', xkind='random')
+            opt2 = self.make(c2, d)
+            opt2.objective = MethodType(opt2._objective(), opt2)
+            avs = [(sorted(int(b) for b in a.bases), int(a.bound)) for a in opt2._aux_vars]
+            x2 = rs.rand(opt2._optvec_size)
+            self.check_point(c2, d, opt2, x2, (lambda: x2.copy()), avs, drv, r, {})
+
+    def comb_def(self, name, T, S, C):
+        """Definitions of the multivariate measures of the single variables S given C, from marginal entropies of T."""
+        C = set(C)
+        hc = Hax(T, C) if C else 0.0
+        h = lambda A: Hax(T, set(A) | C) - hc
+        n = len(S)
+        if name == 'coinformation':
+            return -sum((-1) ** k_ * h(A) for k_ in range(1, n + 1) for A in itertools.combinations(S, k_))
+        if name == 'total_correlation':
+            return sum(h([v]) for v in S) - h(S)
+        if name == 'dual_total_correlation':
+            return h(S) - sum(h(S) - h([w for w in S if w != v]) for v in S)
+        if name == 'caekl_mutual_information':
+            best = None
+            for part in self.set_partitions(list(S)):
+                if len(part) > 1:
+                    v = (sum(h(b) for b in part) - h(S)) / (len(part) - 1)
+                    best = v if best is None or v < best else best
+            return best
+        raise ValueError(name)
+
+    @staticmethod
+    def set_partitions(items):
+        if not items:
+            yield []
+            return
+        first, rest = items[0], items[1:]
+        for part in C15.set_partitions(rest):
+            for i in range(len(part)):
+                yield part[:i] + [[first] + part[i]] + part[i + 1:]
+            yield [[first]] + part
+
+    # ------------------------------------------------------------------
+    def run_wrapper(self, case, drv, r):
+        """The functional forms.  The optimiser object the wrapper builds and searches with is observed through a
+        subclass that records it; what the wrapper returns has to be the named quantities evaluated by definition on the
+        joint of the optimum it found - on an optimiser built here from the same arguments - and within the bounds that
+        hold for any feasible point.  The quality of the search is not judged."""
+        dit = import_dit()
+        from dit.exceptions import OptimizationException
+        from dit.multivariate.secret_key_agreement import intrinsic_mutual_informations as imi
+        from dit.rate_distortion import rate_distortion as rdmod
+        from dit.rate_distortion.information_bottleneck import InformationBottleneck
+        from dit.multivariate.common_informations.wyner_common_information import WynerCommonInformation
+        from dit.multivariate.common_informations.exact_common_information import ExactCommonInformation
+        from dit.multivariate import deweese
+        d = gen.build(case)
+        k = case['cls'].replace('-COPY', '')
+        a, b, c = case['assign']
+        rows = [(o, float(Fraction(p))) for o, p in zip(case['outs'], case['pmf']) if Fraction(p) > 0]
+        ftab = [[list(o), f2bits(v)] for o, v in rows]
+        M = lambda name, g, z: bits2f(drv.call('combf', [name, 0, [sorted(x_) for x_ in g], sorted(z), ftab]))
+        r.nontrivial = len(rows) >= 3
+        if k == 'HCF':
+            from dit.divergences.hypercontractivity_coefficient import hypercontractivity_coefficient
+            v = float(hypercontractivity_coefficient(d, [[a], [b]], niter=2))
+            r.detail = {'value': v}
+            if not (-1e-6 <= v <= 1 + 1e-6):
+                r.oracle_fail = 'hypercontractivity coefficient %r outside [0, 1]' % v
+            elif M('cmi', [[a], [b]], []) <= 1e-12 and abs(v) > 1e-9:
+                r.oracle_fail = 'hypercontractivity coefficient %r of independent variables' % v
+            return
+        base = {'RDH': rdmod.RateDistortionHamming, 'RDRE': rdmod.RateDistortionResidualEntropy,
+                'RDMC': rdmod.RateDistortionMaximumCorrelation, 'IB': InformationBottleneck,
+                'ITC': imi.IntrinsicTotalCorrelation, 'IDTC': imi.IntrinsicDualTotalCorrelation,
+                'ICAEKL': imi.IntrinsicCAEKLMutualInformation, 'WYNER': WynerCommonInformation,
+                'EXACT': ExactCommonInformation, 'DW-CO': deweese.DeWeeseCoInformation}[k]
+
+        class Rec(base):
+            _last = []
+
+            def optimize(self, *args, **kwargs):
+                res = base.optimize(self, *args, **kwargs)
+                Rec._last.append(self)
+                return res
+        Rec._last = []
+        Rec.__name__ = base.__name__
+        c2 = dict(case, cls=k)
+        zs = [c]
+        state = np.random.get_state()
+        np.random.seed(case['seed'] % (2 ** 32))
+        try:
+            if k in RD_CLASSES:
+                zs = [c] if case['rdform'] == 'cond' else []
+                out = Rec.functional()(d, beta=case['beta'], rv=[a], crvs=zs or None)
+                vals = {'rate': float(out.rate), 'distortion': float(out.distortion)}
+            elif k == 'IB':
+                zs = [c] if self.ib_crvs(case) else []
+                out = Rec.functional()(d, beta=case['beta'], alpha=case['alpha'], rvs=[[a], [b]], crvs=zs or None, bound=case['bound'])
+                vals = {'complexity': float(out[0]), 'relevance': float(out[1])}
+            elif k in ('ITC', 'IDTC', 'ICAEKL'):
+                vals = {'objective': float(Rec.functional()(d, [[a], [b]], [c], niter=2, bound=case['bound']))}
+            elif k == 'DW-CO':
+                # the functional form reports the measure itself, the objective is minus the measure
+                vals = {'objective': -float(Rec.functional()(d, [[a], [b]], [c], niter=2))}
+            else:
+                zs = self.markov_crvs(c2)
+                vals = {'objective': float(Rec.functional()(d, [[a], [b]], zs or None))}
+        except OptimizationException:
+            r.features.append('wrapper-no-optimum')       # the search returned nothing: searches are not judged
+            return
+        finally:
+            np.random.set_state(state)
+        r.detail = {'returned': vals}
+        if not Rec._last:
+            # no search: only the common informations may answer without one, when B = H (then C = B = H)
+            dtc, ent = M('dual_total_correlation', [[a], [b]], zs), M('entropy', [[a, b]], zs)
+            r.features.append('wrapper-shortcut')
+            if k not in ('WYNER', 'EXACT'):
+                r.oracle_fail = 'the functional form of %s returned %r without a search' % (k, vals)
+            elif abs(dtc - ent) > 1e-6:
+                r.oracle_fail = 'the functional form returned %r without a search although B = %r differs from H = %r' % (vals, dtc, ent)
+            elif abs(vals['objective'] - ent) > 1e-9:
+                r.oracle_fail = 'common information %r returned for B = H = %r' % (vals['objective'], ent)
+            return
+        if case['cls'].endswith('-COPY'):
+            r.features.append('copy-searched')
+        inst = Rec._last[-1]
+        xs = np.array(inst._optima, dtype=float)
+        ref = self.make(c2, d)
+        if not hasattr(ref, 'objective') or not callable(getattr(ref, 'objective', None)):
+            ref.objective = MethodType(ref._objective(), ref)
+        ji = np.asarray(inst.construct_joint(xs.copy()), dtype=float)
+        if xs.shape != (ref._optvec_size,):
+            r.oracle_fail = ('the functional form searched over %d parameters, the optimiser built from the same arguments has %d'
+                             % (xs.size, ref._optvec_size))
+            return
+        jr = np.asarray(ref.construct_joint(xs.copy()), dtype=float)
+        if ji.shape != jr.shape or float(np.abs(ji - jr).max()) > 1e-12:
+            r.oracle_fail = ('the joint at the optimum of the functional form (shape %s) is not the joint the optimiser built from '
+                             'the same arguments constructs from that vector (shape %s)' % (list(ji.shape), list(jr.shape)))
+            return
+        det = {}
+        self.check_objective(c2, ref, xs, jr, r, det=det)
+        if r.bad():
+            return
+        defs = det.get('defs', {})
+        r.detail['definitions'] = defs
+        r.features.append('wrapper-judged')
+        for name, v in vals.items():
+            if name in defs and not (abs(v - defs[name]) <= 1e-9 * max(1.0, abs(defs[name]))):
+                r.oracle_fail = ('the functional form reports %s = %r, the definition evaluated on the joint of its optimum gives %r'
+                                 % (name, v, defs[name]))
+                return
+        # ---- bounds that hold for any feasible point
+        if k in RD_CLASSES:
+            hx = M('entropy', [[a]], zs)
+            rate, dist = vals['rate'], vals['distortion']
+            if rate < -1e-6 or rate > hx + 1e-6:
+                r.oracle_fail = 'rate %r outside [0, H(X|Z) = %r]' % (rate, hx)
+            elif k == 'RDH':
+                nx = jr.shape[0]
+                if not (-1e-9 <= dist <= 1 + 1e-9):
+                    r.oracle_fail = 'Hamming distortion %r outside [0, 1]' % dist
+                elif nx >= 2 and rate < hx - hbin(min(max(dist, 0.0), 1.0)) - dist * math.log2(nx - 1) - 1e-6:
+                    # Fano: H(X|T,Z) <= h(P[X != T]) + P[X != T] log(|X| - 1)
+                    r.oracle_fail = ('rate %r and Hamming distortion %r contradict Fano\'s inequality for H(X|Z) = %r, |X| = %d'
+                                     % (rate, dist, hx, nx))
+        elif k == 'IB':
+            comp, rel = vals['complexity'], vals['relevance']
+            hx, ixy = M('entropy', [[a]], zs), M('cmi', [[a], [b]], zs)
+            if rel > ixy + 1e-4 or comp > hx + 1e-4 or rel < -1e-6 or comp < -1e-6:
+                r.oracle_fail = 'information bottleneck optimum: relevance %r (I(X:Y|Z) = %r), complexity %r (H(X|Z) = %r)' % (rel, ixy, comp, hx)
+        elif k == 'DW-CO':
+            # X0' - X0 - X1 - X1' given Z: data processing, for every feasible point
+            v, up = -vals['objective'], M('cmi', [[a], [b]], [c])
+            if v < -1e-6 or v > up + 1e-6:
+                r.oracle_fail = 'DeWeese co-information %r outside [0, I(X0:X1|Z) = %r]' % (v, up)
+        elif k in ('ITC', 'IDTC', 'ICAEKL'):
+            v, up = vals['objective'], min(M('cmi', [[a], [b]], []), M('cmi', [[a], [b]], [c]))
+            if v < -1e-4 or v > up + 1e-4:
+                r.oracle_fail = 'intrinsic value %r outside [0, min(I(X:Y), I(X:Y|Z)) = %r]' % (v, up)
 
     def check_bounds(self, case, d, r):
         dit = import_dit()
